@@ -85,6 +85,11 @@ def cases(rng, tier, shard, nshards):
             k2 = rng.choice([k for k in KINDS if k != kind])
             c["removed_before"] = {"kind": k2, "value": V.py_value(rng, k2),
                                    "by": rng.choice(["set-none", "attr-none", "delete"])}
+        if good and c["vlevel"] == 3 and sib is None and "removed_before" not in c and rng.random() < 0.3:
+            # a first assignment of the new tag which level 3 refuses (the value cannot be represented
+            # in the default datatype of its class): the tag is still a new tag for the next value
+            c["refused_before"] = rng.choice([["a\tb", "str"], ["inf", "float"], ["nan", "float"], [[2 ** 32, 1], "intarray"],
+                                              [[-2 ** 31 - 1], "intarray"], ["x\ny", "str"]])
         if rng.random() < 0.3:
             c["connected"] = rng.randrange(len(CONNECTED))
             c["post"] = rng.choice(["none", "rename", "group-line", "group-line", "reparse", "readd"])
@@ -300,6 +305,19 @@ def run(case, ctx):
                 if not r1.ok or tag in line.tagnames or line.get(tag) is not None:
                     ctx.violation("tag-not-removed/%s" % rb["by"], "%r after %s of %s" % (str(line), rb["by"], tag))
                     return
+    if case.get("refused_before"):
+        bv, bk = case["refused_before"]
+        if bk != kind:
+            r0 = call(ctx, "set(tag) value refused at level 3", line.set, tag, materialise(bk, bv))
+            if r0.ok:
+                ctx.count("refused_before_not_refused")
+                return
+            ctx.count("refused_then_assigned")
+            left = call(ctx, "get_datatype", line.get_datatype, tag)
+            if tag in line.tagnames or (left.ok and left.value is not None):
+                ctx.violation("refused-assignment-leaves-tag/%s" % bk, "set(%r, %r) refused at level 3; tagnames %r, datatype %r"
+                              % (tag, bv, line.tagnames, left.value if left.ok else left.cls()))
+                return
     dt_forced = None
     how = case["how"]
     if kind == "char":
@@ -335,7 +353,8 @@ def run(case, ctx):
         ctx.nontriv([kind, repr(case["value"]), how, vlevel, case["carrier"]])
         if not r.ok:
             ctx.violation("valid-assignment-refused/%s/%s" % (kind, r.cls()), "%s: set(%r, %r): %s"
-                          % (cell, tag, v, str(r.exc)[:200]), prop="C18" if vlevel == 3 else None)
+                          % (cell, tag, v, str(r.exc)[:200]),
+                          prop="C18" if vlevel == 3 and not case.get("refused_before") else None)
             return
         if (len(repr(case["value"])) + vlevel) % 2:
             # read back on the very object, before anything else is asked (in half of the cases:
